@@ -2046,6 +2046,39 @@ fn process_unit(job: &Job, ctx: &Ctx, u: &UnitReq, uidx: usize, vac: bool) -> Un
                     break;
                 }
             }
+            // R33: a provided (default) method of a trait `Tr: Super` is emitted as the blanket impl
+            // `impl<VxSelf: Super> Tr for VxSelf { fn m(..) { <default body> } }` (what every implementor runs)
+            if chosen.is_none() && want_trait.is_none() {
+                if let Some(m) = &u.method {
+                    for it in items {
+                        if let Item::Trait(tr) = it {
+                            if norm(&tr.ident.to_token_stream()) != want_self {
+                                continue;
+                            }
+                            for ti in tr.items.iter() {
+                                if let syn::TraitItem::Fn(tf) = ti {
+                                    if tf.sig.ident == m {
+                                        if let Some(body) = &tf.default {
+                                            let tid = &tr.ident;
+                                            let sup = &tr.supertraits;
+                                            let mut synth: syn::ItemImpl = parse_quote!(impl<VxSelf: #sup> #tid for VxSelf {});
+                                            synth.items.push(ImplItem::Fn(syn::ImplItemFn {
+                                                attrs: tf.attrs.clone(),
+                                                vis: syn::Visibility::Inherited,
+                                                defaultness: None,
+                                                sig: tf.sig.clone(),
+                                                block: body.clone(),
+                                            }));
+                                            out.rewrites.push(RewriteLog { rule: "R33".into(), line: line_of(&tf.sig), detail: format!("provided method {}::{} emitted as the blanket impl for every implementor of its supertraits", tid, m) });
+                                            chosen = Some(synth);
+                                        }
+                                    }
+                                }
+                            }
+                        }
+                    }
+                }
+            }
             let mut im = match chosen {
                 Some(i) => i,
                 None => {
